@@ -7,6 +7,7 @@ package main
 import (
 	"bytes"
 	"fmt"
+	"math/rand/v2"
 	"os"
 	"time"
 
@@ -52,6 +53,11 @@ func main() {
 	from, to := c.Range(per)
 	for k := from; k < to; k++ {
 		r := c.Rand(k, 0)
+		if k%400 == 35 {
+			c.Journal(k, map[string]any{"kind": "udp template refresh"})
+			refreshCase(c, k, r)
+			continue
+		}
 		proto := []string{"tcp", "udp"}[k%2]
 		v6 := (k/2)%2 == 1
 		s := session(proto, v6)
@@ -309,4 +315,93 @@ func checkMessage(c *hx.Ctx, k int, desc any, s *lib.ExpSession, raw []byte, n i
 	}
 	c.Add("records_parsed", int64(len(got)))
 	return true
+}
+
+// refreshCase: the messages the library puts on the wire by itself (UDP template refresh)
+// must be as well-formed as the application's: every refresh datagram must parse strictly
+// and carry exactly the template record that was sent under that id. Templates mix forward
+// IANA elements with their reverse (enterprise 29305) twins and other enterprise elements
+// that share element ids.
+func refreshCase(c *hx.Ctx, k int, r *rand.Rand) {
+	s, err := lib.NewExpSession("udp", r.IntN(2) == 0, uint32(0xC02F0000)+uint32(k), 1, 0)
+	if err != nil {
+		c.Inconclusive("session: " + err.Error())
+		return
+	}
+	defer s.Close()
+	var twins [][2]regtable.Elem
+	for _, e := range lib.Pool {
+		if e.Ent == 29305 {
+			if f, ok := lib.Table.Lookup(0, e.ID); ok && lib.Table.Usable[[2]uint32{0, uint32(e.ID)}] {
+				twins = append(twins, [2]regtable.Elem{f, e})
+			}
+		}
+	}
+	want := map[uint16][]byte{}
+	nt := 2 + r.IntN(4)
+	for i := 0; i < nt; i++ {
+		var elems []regtable.Elem
+		for j := 0; j < 1+r.IntN(3); j++ {
+			tw := twins[r.IntN(len(twins))]
+			if r.IntN(2) == 0 {
+				elems = append(elems, tw[1], tw[0])
+			} else {
+				elems = append(elems, tw[0], tw[1])
+			}
+		}
+		elems = append(elems, gen.Template(r, lib.Pool, r.IntN(4))...)
+		// no element twice in one template
+		seen := map[[2]uint32]bool{}
+		var uniq []regtable.Elem
+		for _, e := range elems {
+			kk := [2]uint32{e.Ent, uint32(e.ID)}
+			if !seen[kk] {
+				seen[kk] = true
+				uniq = append(uniq, e)
+			}
+		}
+		tid := s.EP.NewTemplateID()
+		set, err := lib.TemplateSet(tid, uniq, r.IntN(4))
+		if err != nil {
+			c.Violation(k, "templateset-error", err.Error(), nil)
+			return
+		}
+		if _, err := s.EP.SendSet(set); err != nil {
+			c.Violation(k, "send-template-error", err.Error(), nil)
+			return
+		}
+		want[tid] = refipfix.EncodeTemplateRecord(tid, gen.Fields(uniq))
+	}
+	time.Sleep(1300 * time.Millisecond)
+	dgs := s.UDP.All()
+	for i, dg := range dgs {
+		c.Eval(1)
+		m, err := refipfix.ParseMessage(dg.Data)
+		if err != nil {
+			c.Violation(k, "malformed", fmt.Sprintf("datagram %d (refresh=%v): %v", i, i >= nt, err), nil)
+			return
+		}
+		if m.SetID != 2 {
+			c.Violation(k, "refresh-not-template", fmt.Sprintf("datagram %d has set id %d", i, m.SetID), nil)
+			return
+		}
+		tid, _, rest, err := refipfix.ParseTemplateRecord(m.Body)
+		if err != nil || len(rest) != 0 {
+			c.Violation(k, "template-malformed", fmt.Sprintf("datagram %d: %v, %d trailing bytes", i, err, len(rest)), nil)
+			return
+		}
+		if w, ok := want[tid]; !ok || !bytes.Equal(w, m.Body) {
+			cls := "template-bytes"
+			if i >= nt {
+				cls = "refreshed-template-bytes"
+			}
+			c.Violation(k, cls, fmt.Sprintf("datagram %d: template %d on the wire is %x, the template sent under that id is %x", i, tid, m.Body, w), nil)
+			return
+		}
+		if i >= nt {
+			c.Add("refreshed_templates_verified", 1)
+			c.Nontrivial(hx.H64("refresh", k, i, m.Body))
+		}
+	}
+	c.Add("refresh_cases", 1)
 }
